@@ -28,8 +28,53 @@ def consumers(ctx: Ctx):
                    f"from the framer's", where=where(fi, whiles[0]) if whiles else "")
 
 
+def definition_level(ctx: Ctx):
+    """R10.c: the definition's packet generator (the consumer every user goes through) on a 3-packet stream cut at every byte,
+    for bytes / file / closed socket: it ends without an exception and hands out exactly the complete packets (header-only
+    mode, so no document is involved)."""
+    from ..harness import Harness
+    from ..interp import Raised, StepLimit
+    from ..core import Unsupported
+    from ..models import ccsds_bytes, file_source, socket_source, source_externals, model_definition
+    prog = ctx.prog
+    fi = prog.func_opt("xtce/definitions.py::XtcePacketDefinition.packet_generator")
+    if fi is None:
+        ctx.unknown("R10.c", "xtce/definitions.py", "packet_generator not found")
+        return
+    pk = [ccsds_bytes(bytes(range(1, 1 + n)), apid=5 + n, count=n) for n in (3, 1, 6)]
+    stream = b"".join(pk)
+    bounds = [0]
+    for p in pk:
+        bounds.append(bounds[-1] + len(p))
+    for kind in ("bytes", "file(read=4)", "socket closed by its peer"):
+        site = f"{fi.key}::cut at every byte::{kind}"
+        bad = None
+        try:
+            for cut in range(0, len(stream) + 1):
+                h = Harness(prog, source_externals(), max_steps=300000)
+                data = stream[:cut]
+                src = data if kind == "bytes" else (file_source(data) if kind.startswith("file") else socket_source([data[:5], data[5:]]))
+                kw = ", buffer_read_size_bytes=4" if kind.startswith("file") else ""
+                d = model_definition(h.it, "CCSDSPacket")
+                try:
+                    k, got = h.outcome(f"d.packet_generator(src, ccsds_headers_only=True{kw})", "xtce/definitions.py", d=d, src=src)
+                except StepLimit:
+                    bad = f"stream cut at byte {cut}: the definition's generator does not terminate"
+                    break
+                want = [p for p, end in zip(pk, bounds[1:]) if end <= cut]
+                if k != "ok" or [bytes(x) for x in got] != want:
+                    bad = (f"stream cut at byte {cut}: the definition's generator {'ends in ' + str(got) if k != 'ok' else 'yields ' + str(len(got)) + ' packets'}; "
+                           f"expected the {len(want)} complete packets and a normal end")
+                    break
+        except Unsupported as e:
+            ctx.unknown("R10.c", site, str(e))
+            continue
+        ctx.decide(bad is None, "R10.c", site, f"{len(stream) + 1} cuts", bad or "", where=where(fi, fi.node))
+
+
 def check(ctx: Ctx) -> None:
     thorough = ctx.stats.get("tier") == "thorough"
+    ctx.guard("R10.c", "xtce/definitions.py", definition_level, ctx)
     r = ctx.guard("R10.roles", F.GEN, F.Roles, ctx.prog)
     if r is not None:
         ctx.guard("R10.1", F.GEN, F.slice_safety, ctx, r, "R10.1")
@@ -70,7 +115,7 @@ SPEC = PropSpec(
     pid="C10",
     title="Framing terminates on every finite source and yields only complete packets",
     check=check,
-    floors={"R10.1": 2, "R10.2": 1, "R10.3": 4, "R10.4": 2, "R10.6": 1, "R10.t": 20, "R10.g": 8, "R10.5": 4},
+    floors={"R10.1": 2, "R10.2": 1, "R10.3": 4, "R10.4": 2, "R10.6": 1, "R10.t": 20, "R10.g": 8, "R10.5": 4, "R10.c": 3},
     fallback={r: ("R10.t", "R10.g") for r in ("R10.roles", "R10.1", "R10.2", "R10.3", "R10.4", "R10.6")},
     explanation=("R10.1 must-facts over the CFG of ccsds_generator: on every path - including the paths on which the "
                  "reader returned nothing - `len(B)-P >= 6` holds at the header slice and `len(B)-P >= N` at the packet "
